@@ -10,13 +10,18 @@ Streams
             kind          `parse_type("integer(<args>) :: x")`
             ftype / fdecl `FortranVariable.full_type` / `.full_declaration`
   decl  : generated declaration statements (literals over the HTML/Markdown/regex-significant
-          alphabet, also unbalanced junk) parsed by the real `FortranSourceFile`; a recorder
-          around `line_to_variables` observes the masked line, `parent.strings` and the
-          variables; compared with the model's `cutLits` / `declVars`.
-  e2e   : whole projects through `ford.main`; every page that shows declarations is compared
-          with the page of the *neutral twin* project (every hot source text replaced by a
-          harmless placeholder): property oracle = text equals the twin's text with the
-          placeholders replaced by the source texts (NBSP read as blank), tag skeleton equal.
+          alphabet in both letter cases, keywords and names in any spelling, also unbalanced
+          junk) parsed by the real `FortranSourceFile`, every second chunk as a project with
+          `lower: true`; a recorder around `line_to_variables` observes the masked line,
+          `parent.strings` and the variables; compared with the model's `prepLine` / `declVarsOpt`.
+  e2e   : whole projects through `ford.main` (mixed-case sources; the project option `lower`
+          drawn per project; type declarations, BIND and PARAMETER statements); every page that
+          shows declarations is compared with the page of the *neutral twin* project (every hot
+          source text replaced by a harmless placeholder): property oracle = text equals the
+          twin's text with the placeholders replaced by the source texts (NBSP read as blank; with
+          `lower` code lower-cased and literals as written), tag skeleton equal; the twin's rows
+          must say what the declarations say (letter case of code ignored, of literals not), and
+          every generated module must be displayed at all.
 """
 from __future__ import annotations
 
@@ -41,8 +46,35 @@ LIT_PIECES = [
     "<", ">", "&", '"', "'", "\\", " ", "  ", "   ", "*", "_", "[", "]", "|",
     "a", "b", "x1", "<b>", "</td>", "<i>", "&amp;", "&lt;", "&#39;", "\\n", "\\d", "\\1", "\\g<0>",
     "\\\\", "!", ";", ",", "=", "(", ")", "::", '"1"', "0", "**b**", "_e_", "[[m0]]", "a|b", "</", "<!--",
+    # letter case is part of a literal (format strings, C names, messages)
+    "A", "Bc", "X1", "<B>", "</TD>", "&AMP;", "&Lt;", "\\N", "\\D", "ES12.4E3", "Kpa",
 ]
-PLAIN_PIECES = ["a", "b", "x1", " ", "_", "0", "*", "|"]
+PLAIN_PIECES = ["a", "b", "x1", " ", "_", "0", "*", "|", "A", "Bc", "X1"]
+
+
+def recase(rng, s: str) -> str:
+    """one of the spellings a Fortran programmer uses for a keyword / name: as is, UPPER, Capitalised"""
+    r = rng.random()
+    if r < 0.55:
+        return s
+    if r < 0.8:
+        return s.upper()
+    return s[:1].upper() + s[1:]
+
+
+def lowercode(s: str) -> str:
+    """the documented meaning of the option `lower`: code lower-cased, character literals as written"""
+    out, q = [], None
+    for c in s:
+        if q is None:
+            if c in "'\"":
+                q = c
+            out.append(c.lower())
+        else:
+            out.append(c)
+            if c == q:
+                q = None
+    return "".join(out)
 
 
 def gen_literal(rng, hot=True, maxp=5):
@@ -52,8 +84,9 @@ def gen_literal(rng, hot=True, maxp=5):
     return q + body.replace(q, q + q) + q
 
 
-def squeeze(s: str) -> str:
-    """remove blanks outside character literals (quote-aware), NBSP read as blank"""
+def squeeze(s: str, fold: bool = False) -> str:
+    """remove blanks outside character literals (quote-aware), NBSP read as blank;
+    fold: also ignore letter case outside literals (Fortran code is case-insensitive, literals are not)"""
     out, q = [], None
     for c in s.replace(NBSP, " "):
         if q is None:
@@ -63,7 +96,7 @@ def squeeze(s: str) -> str:
             elif c in " \t\n\r":
                 continue
             else:
-                out.append(c)
+                out.append(c.lower() if fold else c)
         else:
             out.append(c)
             if c == q:
@@ -212,7 +245,8 @@ def micro_streams(ford, drv, rng, n, rep, auto):
 # --------------------------------------------------------------------------
 
 INIT_TOKENS = ["1", "2.0", "n", "m", "k", "+", "*", "//", "(", ")", "[", "]", ",", " ", "  ", "<", ">", ".lt.", "a<b",
-               "merge(1, 2, k<l)", "size(x)", "null()", "-", "1.0_dp"]
+               "merge(1, 2, k<l)", "size(x)", "null()", "-", "1.0_dp",
+               "N", "Kx", ".LT.", "A<B", "MERGE(1, 2, K<L)", "Size(X)", "NULL()", "1.0_DP", "1.0E0"]
 TYPES = ["integer", "real", "logical", "character(len=*)", "character(len=10)", "real(kind=dp)", "type(tt)", "complex"]
 ATTRS = ["parameter", "allocatable", "target", "save", "dimension(2, 3)", "dimension(:)", "pointer", "protected", "private", "public"]
 
@@ -241,17 +275,17 @@ def gen_init_expr(rng, junk=False):
 
 
 def gen_decl_line(rng, idx, junk=False):
-    ty = rng.choice(TYPES)
-    attrs = rng.sample(ATTRS, rng.choice([0, 0, 1, 2]))
+    ty = recase(rng, rng.choice(TYPES))
+    attrs = [recase(rng, a) for a in rng.sample(ATTRS, rng.choice([0, 0, 1, 2]))]
     ents = []
     for j in range(rng.randint(1, 3)):
-        name = f"v{idx}x{j}"
+        name = f"v{idx}x{j}" + rng.choice(["", "", "", "A", "Bc", "_Q"])
         dim = rng.choice(["", "", "(2,3)", "(3)", "*8", "(2)*4", "[*]", "(n, m)"])
         r = rng.random()
         if r < 0.6:
             ini = rng.choice([" = ", "=", " =  "]) + gen_init_expr(rng, junk)
         elif r < 0.7:
-            ini = rng.choice([" => ", "=>"]) + rng.choice(["null()", "tgt", gen_literal(rng)])
+            ini = rng.choice([" => ", "=>"]) + rng.choice(["null()", "tgt", "NULL()", "Tgt", gen_literal(rng)])
         elif r < 0.73 and junk:
             ini = rng.choice([" =", " =>", "= "])
         else:
@@ -259,7 +293,12 @@ def gen_decl_line(rng, idx, junk=False):
         ents.append(name + dim + ini)
     sep = rng.choice([", ", ",", " , "])
     head = ty + "".join(", " + a for a in attrs) + rng.choice([" :: ", "::", " ::"])
-    return head + sep.join(ents)
+    line = head + sep.join(ents)
+    if junk:
+        # with unbalanced quotes the reader may see a `!` of a literal as the start of a comment; `!>`, `!|`, `!*`
+        # in the middle of a line are then (rightly) refused by the reader with an error for the whole file
+        line = re.sub(r"!(?=[>|*])", "! ", line)
+    return line
 
 
 def decl_stream(ford, drv, rng, n, rep):
@@ -283,7 +322,7 @@ def decl_stream(ford, drv, rng, n, rep):
         return type(e).__name__
 
     def wrap(source, line, perm, parent):
-        m = re.search(r"v(\d+)x", line)
+        m = re.search(r"v(\d+)x", line, re.I)
         strings = list(parent.strings)
         try:
             vs = orig(source, line, perm, parent)
@@ -296,10 +335,15 @@ def decl_stream(ford, drv, rng, n, rep):
 
     lines = [gen_decl_line(rng, i, junk=(i % 4 == 3)) for i in range(n)]
     hist = {"lines": n, "junk": 0, "with_literal": 0, "errors": 0, "unaligned": 0, "literals": 0,
-            "nbsp_runs": 0, "backslash": 0, "ltletter": 0}
+            "nbsp_runs": 0, "backslash": 0, "ltletter": 0, "lower_option": 0, "lower_option_capital_in_literal": 0,
+            "capital_in_code": 0}
+    chunk = 200
+
+    def lower_of(i):  # every second chunk is parsed as a project with `lower: true`
+        return (i // chunk) % 2 == 1
+
     bad = 0
     with common.scratch_dir() as d:
-        chunk = 200
         stmts = {}
         sf.line_to_variables = wrap
         try:
@@ -307,12 +351,12 @@ def decl_stream(ford, drv, rng, n, rep):
                 p = d / f"u{c0}.f90"
                 p.write_text("module mm\n" + "".join(l + "\n" for l in lines[c0:c0 + chunk]) + "end module mm\n")
                 for st in FortranReader(str(p), "!", ">", "*", "|"):
-                    m = re.search(r"v(\d+)x", st)
+                    m = re.search(r"v(\d+)x", st, re.I)
                     if m and int(m.group(1)) not in stmts:
                         stmts[int(m.group(1))] = st
                 with common.quiet():
                     try:
-                        sf.FortranSourceFile(str(p), ProjectSettings())
+                        sf.FortranSourceFile(str(p), ProjectSettings(lower=lower_of(c0)))
                     except Exception as e:  # noqa
                         rep.tie_broken(f"decl stream: real parser raised outside line_to_variables: {type(e).__name__}: {e}")
         finally:
@@ -321,8 +365,9 @@ def decl_stream(ford, drv, rng, n, rep):
     hist["unaligned"] = n - len(idxs)
     reqs = []
     for i in idxs:
-        reqs.append(["c18.cut", stmts[i]])
-        reqs.append(["c18.decl", stmts[i]])
+        fl = "1" if lower_of(i) else "0"
+        reqs.append(["c18.cut", fl, stmts[i]])
+        reqs.append(["c18.decl", fl, stmts[i]])
     got = drv.batch(reqs)
     for k, i in enumerate(idxs):
         line, strings, out = rec[i]
@@ -336,6 +381,9 @@ def decl_stream(ford, drv, rng, n, rep):
             e_decl = ["err", out[1]]
             hist["errors"] += 1
         hist["junk"] += i % 4 == 3
+        hist["lower_option"] += lower_of(i)
+        hist["capital_in_code"] += bool(re.search(r"[A-Z]", line))
+        hist["lower_option_capital_in_literal"] += lower_of(i) and any(re.search(r"[A-Z]", s) for s in strings)
         if strings:
             hist["with_literal"] += 1
             hist["literals"] += len(strings)
@@ -346,12 +394,12 @@ def decl_stream(ford, drv, rng, n, rep):
             continue
         if g_cut != e_cut:
             bad += 1
-            rep.tie_broken(f"correspondence decl/cut: model {g_cut!r} vs implementation {e_cut!r} on {stmts[i]!r}",
-                           {"stream": "decl", "statement": stmts[i], "impl": e_cut, "model": g_cut})
+            rep.tie_broken(f"correspondence decl/cut (lower={lower_of(i)}): model {g_cut!r} vs implementation {e_cut!r} on {stmts[i]!r}",
+                           {"stream": "decl", "statement": stmts[i], "lower": lower_of(i), "impl": e_cut, "model": g_cut})
         if g_decl != e_decl:
             bad += 1
-            rep.tie_broken(f"correspondence decl/vars: model {g_decl!r} vs implementation {e_decl!r} on {stmts[i]!r}",
-                           {"stream": "decl", "statement": stmts[i], "impl": e_decl, "model": g_decl})
+            rep.tie_broken(f"correspondence decl/vars (lower={lower_of(i)}): model {g_decl!r} vs implementation {e_decl!r} on {stmts[i]!r}",
+                           {"stream": "decl", "statement": stmts[i], "lower": lower_of(i), "impl": e_decl, "model": g_decl})
     return len(idxs), bad, hist, lines
 
 
@@ -365,22 +413,29 @@ class Hot:
     def __init__(self, pid, site, text, neutral, mod=0):
         self.pid, self.site, self.text, self.neutral, self.mod = pid, site, text, neutral, mod
 
-    def drops_file(self):
+    def drops_file(self, twin=False):
         """classes whose effect is that FORD gives up on the whole source file"""
-        c = self.known_class()
-        if c == "C18-len-cut" and "," in self.text:
+        c = self.known_class(twin)
+        text = self.neutral if twin else self.text
+        if c == "C18-len-cut" and "," in text:
             return c
-        if c == "C18-bind-name-undoubled-backslash":
+        if c in ("C18-bind-name-undoubled-backslash", "C18-enumerator-expression-drops-file"):
             return c
         return None
 
-    def known_class(self):
-        """decidable defect class of this (site, text), or None: see known_findings/C18.json"""
-        sq = squeeze(self.text)
+    def known_class(self, twin=False):
+        """decidable defect class of this (site, text), or None: see known_findings/C18.json
+        (twin: of the placeholder text that stands for it in the neutral twin)"""
+        text = self.neutral if twin else self.text
+        sq = squeeze(text)
+        if self.site == "enum" and not re.fullmatch(r"[+-]?\d+(_\w+)?", sq):
+            return "C18-enumerator-expression-drops-file"
+        if self.site == "paramstmt" and re.search(r"['\"]", text):
+            return "C18-parameter-statement-literal-placeholder"
         if self.site == "init":
             # outside literals: `=` at parenthesis level 0 (==, <=, >=, /=)
             lvl, q = 0, None
-            for c in self.text:
+            for c in text:
                 if q:
                     if c == q:
                         q = None
@@ -398,7 +453,7 @@ class Hot:
             return "C18-kind-cut-at-comma"
         if self.site == "len" and not re.fullmatch(r"\w+|\*|:", sq):
             return "C18-len-cut"
-        if self.site == "bind" and "\\" in self.text:
+        if self.site in ("bind", "bindattr") and "\\" in text:
             return "C18-bind-name-undoubled-backslash"
         if self.site in ("dim", "dimattr", "kind", "len", "enum", "bind"):
             if re.search(r"<[A-Za-z/!?]", sq) or (self.site == "bind" and ("&" in sq or "<" in sq)):
@@ -407,9 +462,10 @@ class Hot:
 
 
 class ProjGen:
-    def __init__(self, rng, tag):
+    def __init__(self, rng, tag, lower=False):
         self.rng = rng
         self.tag = tag
+        self.lower = lower  # the project option `lower` this project is built with
         self.hots: list[Hot] = []
         self.n = 0
         self.cur_mod = 0
@@ -423,6 +479,15 @@ class ProjGen:
         self.hots.append(h)
         return "\x01" + pid + "\x02"
 
+    def kw(self, s):
+        """a keyword / non-hot name in one of the usual spellings (same in the twin)"""
+        return recase(self.rng, s)
+
+    def shown(self, h):
+        """what the page must show for a hot source text: the text itself; with the option `lower`
+        its code lower-cased and its character literals as written"""
+        return lowercode(h.text) if self.lower else h.text
+
     # expression generators -------------------------------------------------
     def init_expr(self):
         rng = self.rng
@@ -433,8 +498,9 @@ class ProjGen:
                 parts.append(self.hot("init", gen_literal(rng, hot=True, maxp=5), literal=True))
             else:
                 e = rng.choice(["n+1", "merge(1, 2, k<l)", "a<b", "k > l", "2*n", "size(x)<m", "a.lt.b",
-                                "(k == 1)", "[1, 2, 3]", "max(n,m)", "i<j .and. j>i"] +
-                               (["a == b", "k <= l", "a /= b", "n >= m"] if rng.random() < 0.15 else []))
+                                "(k == 1)", "[1, 2, 3]", "max(n,m)", "i<j .and. j>i",
+                                "N+1", "MERGE(1, 2, K<L)", "A<B", "Size(X)<M", "A.LT.B", "Max(N,m)", "1.0E0_DP"] +
+                               (["a == b", "k <= l", "a /= b", "n >= m", "A == B"] if rng.random() < 0.15 else []))
                 parts.append(self.hot("init", e))
         return rng.choice([" // ", "//"]).join(parts)
 
@@ -442,35 +508,50 @@ class ProjGen:
         rng = self.rng
         r = rng.random()
         if r < 0.75:
-            return rng.choice(["4", "8", "dp", "int32", "c_int", "kind(1.0d0)", "k4"])
-        return self.hot("kind", rng.choice(["selected_real_kind(6,37)", "merge(4,8,c)", "kind(a<b)", "ck*(k<l)", "max(4, 8)"]))
+            return self.kw(rng.choice(["4", "8", "dp", "int32", "c_int", "kind(1.0d0)", "k4"]))
+        return self.hot("kind", rng.choice(["selected_real_kind(6,37)", "merge(4,8,c)", "kind(a<b)", "ck*(k<l)", "max(4, 8)",
+                                            "Selected_Real_Kind(6,37)", "KIND(A<B)", "CK*(K<L)"]))
 
     def len_expr(self):
         rng = self.rng
         r = rng.random()
         if r < 0.8:
-            return rng.choice(["*", "10", "n", ":", "3", "len_x"])
-        return self.hot("len", rng.choice(["n+1", "2*n", "len(a<b)", "n+1", "2*n", "max(n,1)"]))
+            return self.kw(rng.choice(["*", "10", "n", ":", "3", "len_x"]))
+        return self.hot("len", rng.choice(["n+1", "2*n", "len(a<b)", "n+1", "2*n", "max(n,1)", "N+1", "LEN(A<B)"]))
 
     def dim_expr(self, site):
         rng = self.rng
         r = rng.random()
         if r < 0.75:
-            return rng.choice(["2,3", "3", ":", "n, m", "0:n", "2"])
-        return self.hot(site, rng.choice(["merge(2,3,k<l)", "n>m", "2*n, 3", "size(a)<b", "k > 1"]))
+            return self.kw(rng.choice(["2,3", "3", ":", "n, m", "0:n", "2"]))
+        return self.hot(site, rng.choice(["merge(2,3,k<l)", "n>m", "2*n, 3", "size(a)<b", "k > 1",
+                                          "MERGE(2,3,K<L)", "N>M", "Size(A)<B"]))
 
     def type_spec(self, allow_char=True):
         rng = self.rng
         r = rng.random()
         if r < 0.35 and allow_char:
             if rng.random() < 0.3:
-                return f"character(kind={rng.choice(['ck', 'c_char'])}, len={self.len_expr()})"
-            return f"character(len={self.len_expr()})"
+                return f"{self.kw('character')}({self.kw('kind')}={self.kw(rng.choice(['ck', 'c_char']))}, {self.kw('len')}={self.len_expr()})"
+            return f"{self.kw('character')}({self.kw('len')}={self.len_expr()})"
         if r < 0.6:
-            return rng.choice(["integer", "real", "logical", "complex"])
+            return self.kw(rng.choice(["integer", "real", "logical", "complex"]))
         if r < 0.9:
-            return f"{rng.choice(['integer', 'real'])}(kind={self.kind_expr()})"
-        return "type(tt0)"
+            return f"{self.kw(rng.choice(['integer', 'real']))}({self.kw('kind')}={self.kind_expr()})"
+        return self.kw("type") + "(" + self.kw("tt0") + ")"
+
+    def bind_literal(self):
+        rng = self.rng
+        r = rng.random()
+        if r < 0.7:
+            lit = gen_literal(rng, hot=False, maxp=3).replace(" ", "")
+            if len(lit) == 2:
+                lit = lit[0] + "Nm_c" + lit[0]
+        elif r < 0.92:
+            lit = '"' + rng.choice(["s<b>x", "a&amp;b", "p<i", "x&y", "a>b", "S<B>x", "A&Amp;b"]) + '"'
+        else:
+            lit = "'" + rng.choice(["a\\\\b", "a\\nb", "a\\db", "x\\"]) + "'"
+        return lit
 
     def var_decl(self, names, ctx, pages=()):
         """ctx: 'module' | 'type' | 'local' | 'arg'; pages: where the rows must appear"""
@@ -496,6 +577,8 @@ class ProjGen:
         perm = next((a for a in attrs if a in ("public", "private", "protected")), "public")
         other = [a for a in attrs if a not in ("public", "private", "protected", "optional", "parameter")
                  and not a.startswith("intent(")]
+        # the source spells the keywords in any case (the rows are compared case-insensitively outside literals)
+        src_attrs = [self.kw("dimension") + a[9:] if a.startswith("dimension(") else self.kw(a) for a in attrs]
         for nm in names:
             e = nm
             dim = ini = ""
@@ -512,7 +595,7 @@ class ProjGen:
             row = ",".join(parts + other) + "::" + nm + dim + (ini if ctx != "arg" else "")
             for pg in pages:
                 self.expect.append((pg, row))
-        return ty + "".join(", " + a for a in attrs) + " :: " + ", ".join(ents)
+        return ty + "".join(", " + a for a in src_attrs) + " :: " + ", ".join(ents)
 
     def module(self, k):
         rng = self.rng
@@ -525,36 +608,42 @@ class ProjGen:
             out = []
             for _ in range(c):
                 vi += 1
-                out.append(f"v{k}n{vi}")
+                out.append(self.kw(f"v{k}n{vi}"))
             return out
 
         mp, tp, sp, fp = f"module/m{k}.html", f"type/tt{k}.html", f"proc/s{k}.html", f"proc/f{k}.html"
         for _ in range(rng.randint(5, 8)):
             L.append("  " + self.var_decl(names(rng.choice([1, 1, 2])), "module", [mp]))
+        # attribute statements: the other path on which the literals cut out of a statement are put back
+        # (ATTRIB branch of the container loop): BIND and PARAMETER statements
+        if rng.random() < 0.4:
+            g = names(1)[0]
+            b = f"{self.kw('bind')}({self.kw('c')}, {self.kw('name')}={self.hot('bindattr', self.bind_literal(), literal=True)})"
+            L += [f"  {self.kw('integer')} :: {g}", f"  {b} :: {g}"]
+            self.expect.append((mp, f"integer,public,{b.replace(' ', '')}::{g}"))
+        if rng.random() < 0.35:
+            pz = names(1)[0]
+            if rng.random() < 0.6:
+                val = self.hot("paramstmt", gen_literal(rng, hot=True, maxp=3), literal=True)
+            else:
+                val = self.hot("paramstmt", rng.choice(["n+1", "merge(1, 2, k<l)", "A<B", "2*N", "size(x)<m"]))
+            L += [f"  {self.kw('character(len=8)')} :: {pz}", f"  {self.kw('parameter')} ({pz} = {val})"]
+            self.expect.append((mp, f"character(len=8),public,parameter::{pz}={val}"))
         L.append(f"  type :: tt{k}")
         for _ in range(rng.randint(1, 3)):
             L.append("    " + self.var_decl(names(1), "type", [mp, tp]))
         L.append(f"  end type tt{k}")
         if rng.random() < 0.6:
-            ev = rng.choice(["3", "7"]) if rng.random() < 0.7 else self.hot("enum", rng.choice(["merge(1,2,k<l)", "4*(a<b)"]))
-            L += ["  enum, bind(c)", f"    enumerator :: e{k}a = 1, e{k}b = {ev}", "  end enum"]
+            ev = rng.choice(["3", "7"]) if rng.random() < 0.85 else self.hot("enum", rng.choice(["merge(1,2,k<l)", "4*(a<b)", "ishft(1, 2)", "7_c_int"]))
+            L += ["  " + self.kw("enum, bind(c)"), f"    {self.kw('enumerator')} :: e{k}a = 1, e{k}b = {ev}", "  end enum"]
             self.expect.append((mp, f"enumerator::e{k}b={ev}"))
         L.append("contains")
         # subroutine with bind name
         a = names(2)
         bind = ""
         if rng.random() < 0.6:
-            r = rng.random()
-            if r < 0.7:
-                lit = gen_literal(rng, hot=False, maxp=3).replace(" ", "")
-                if len(lit) == 2:
-                    lit = lit[0] + "nm" + lit[0]
-            elif r < 0.92:
-                lit = '"' + rng.choice(["s<b>x", "a&amp;b", "p<i", "x&y", "a>b"]) + '"'
-            else:
-                lit = "'" + rng.choice(["a\\\\b", "a\\nb", "a\\db", "x\\"]) + "'"
-            bind = f" bind(c, name={self.hot('bind', lit, literal=True)})"
-        L.append(f"  subroutine s{k}({a[0]}, {a[1]}){bind}")
+            bind = f" {self.kw('bind')}({self.kw('c')}, {self.kw('name')}={self.hot('bind', self.bind_literal(), literal=True)})"
+        L.append(f"  {self.kw('subroutine')} s{k}({a[0]}, {a[1]}){bind}")
         for pg in (mp, sp):
             self.expect.append((pg, f"publicsubroutines{k}({a[0]},{a[1]})" + bind.replace(" ", "")))
         L.append("    " + self.var_decl(a[:1], "arg", [mp, sp]))
@@ -564,16 +653,16 @@ class ProjGen:
         nl = names(2)
         L.append("    " + self.var_decl(nl[:1], "local", [sp]))
         L.append("    " + self.var_decl(nl[1:], "local", [sp]))
-        L.append(f"    namelist /nl{k}/ {nl[0]}, {nl[1]}")
+        L.append(f"    {self.kw('namelist')} /nl{k}/ {nl[0]}, {nl[1]}")
         L.append(f"  end subroutine s{k}")
         a = names(1)
         r_ = names(1)[0]
-        L.append(f"  function f{k}({a[0]}) result({r_})")
+        L.append(f"  {self.kw('function')} f{k}({a[0]}) {self.kw('result')}({r_})")
         for pg in (mp, fp):
             self.expect.append((pg, f"publicfunctionf{k}({a[0]})result({r_})"))
         L.append("    " + self.var_decl(a, "arg", [mp, fp]))
         rty = self.type_spec(allow_char=False)
-        rattr = rng.choice([[], [], ["dimension(2)"], ["allocatable", "dimension(:)"], ["target"]])
+        rattr = [self.kw(x) for x in rng.choice([[], [], ["dimension(2)"], ["allocatable", "dimension(:)"], ["target"]])]
         rdim = "(3)" if not rattr and rng.random() < 0.4 else ""
         L.append(f"    {rty}" + "".join(", " + x for x in rattr) + f" :: {r_}{rdim}")
         for pg in (mp, fp):
@@ -594,6 +683,7 @@ class ProjGen:
         return "\n".join(out) + "\n"
 
     def project(self, nmod):
+        self.nmod = nmod
         files_real, files_neutral = {}, {}
         mods = []
         base = ["module m0", "  type :: tt0", "    integer :: q0", "  end type tt0", "end module m0"]
@@ -632,13 +722,17 @@ def page_items(path: Path):
 PID_RE = re.compile(r"zq\d+h\d+zq")
 
 
-def expected_text(neutral_text: str, byid) -> str:
-    """the twin's text with every placeholder replaced by the source text it stands for"""
+def expected_text(neutral_text: str, byid, lower=False) -> str:
+    """the twin's text with every placeholder replaced by the source text it stands for; in a project
+    built with the option `lower` ("convert all non-string, non-comment source code to lower case") code is
+    expected lower-cased, the contents of character literals as written"""
     def sub(m):
         h = byid.get(m.group(0))
         if h is None:
             return m.group(0)
-        return h.text[1:-1] if h.neutral != h.pid else h.text  # literal placeholders keep their quotes in the twin
+        if h.neutral != h.pid:
+            return h.text[1:-1]  # literal placeholders keep their quotes in the twin
+        return lowercode(h.text) if lower else h.text
     return PID_RE.sub(sub, neutral_text)
 
 
@@ -649,26 +743,37 @@ def e2e_stream(ford, rng, nproj, rep, seed, cov):
     class_hist: dict[str, int] = {}
     page_hist: dict[str, int] = {}
     fail_hist: dict[str, int] = {}
+    opt_hist: dict[str, int] = {}
+    case_hist = {"hot_texts_with_capitals": 0, "literals_with_capitals_under_lower": 0, "code_with_capitals_under_lower": 0}
     samples = []
     with common.scratch_dir() as d:
         for pi in range(nproj):
-            gen = ProjGen(rng, pi)
+            # project options that change how source text is carried to the page are part of the input
+            low = rng.random() < 0.5
+            opts = dict(OPTIONS, lower="true" if low else "false")
+            opt_hist["lower=" + opts["lower"]] = opt_hist.get("lower=" + opts["lower"], 0) + 1
+            gen = ProjGen(rng, pi, lower=low)
             real, neutral = gen.project(rng.choice([1, 2]))
             byid = gen.byid
             outs = {}
             for kind, files in (("real", real), ("neutral", neutral)):
                 root = d / f"p{pi}{kind}"
                 shutil.rmtree(root, ignore_errors=True)
-                pf = e2e.write_project(root, files, OPTIONS)
+                pf = e2e.write_project(root, files, opts)
                 r = e2e.run_inprocess(pf)
                 outs[kind] = (root / "doc", r)
             (rdoc, rr), (ndoc, nr) = outs["real"], outs["neutral"]
             if nr["rc"] != 0:
                 rep.tie_broken(f"e2e: FORD failed on the neutral twin of project {pi}: {nr['exc']} {nr['log'][-300:]}",
-                               {"stream": "e2e", "files": neutral})
+                               {"stream": "e2e", "options": opts, "files": neutral})
                 continue
             for h in gen.hots:
                 site_hist[h.site] = site_hist.get(h.site, 0) + 1
+                if re.search(r"[A-Z]", h.text):
+                    case_hist["hot_texts_with_capitals"] += 1
+                    if low:
+                        case_hist["literals_with_capitals_under_lower" if h.neutral != h.pid else "code_with_capitals_under_lower"] += 1
+                        distinct.add(common.digest([h.site, h.text, "lower"]))
                 c = h.known_class()
                 if c:
                     class_hist[c] = class_hist.get(c, 0) + 1
@@ -676,6 +781,19 @@ def e2e_stream(ford, rng, nproj, rep, seed, cov):
                     distinct.add(common.digest([h.site, h.text]))
             pages = sorted(p.relative_to(ndoc) for sub in ("module", "proc", "type", "namelist", "interface", "lists")
                            for p in (ndoc / sub).glob("*.html"))
+            # absolute part of the oracle, file level: every generated module is displayed at all
+            for k in range(1, gen.nmod + 1):
+                evaluations += 1
+                if not (ndoc / "module" / f"m{k}.html").exists():
+                    hs = [h for h in gen.hots if h.mod == k and h.drops_file(twin=True)]
+                    cls = sorted({h.drops_file(twin=True) for h in hs})
+                    fid = cls[0] if cls else None
+                    fail_hist[fid or "unclassified"] = fail_hist.get(fid or "unclassified", 0) + 1
+                    rep.failing_input({"stream": "e2e", "page": f"module/m{k}.html", "item": "module of the neutral twin",
+                                       "why": "FORD dropped the whole source file, none of its declarations is displayed: "
+                                              + " ".join(l.strip() for l in nr["log"].splitlines() if "rror" in l or "Bad" in l or "Non-" in l)[:400],
+                                       "source_texts": [{"site": h.site, "text": h.neutral} for h in hs],
+                                       "options": opts, "files": neutral}, fid)
             dropped = [k for k in range(1, 3) if (ndoc / "module" / f"m{k}.html").exists()
                        and not (rdoc / "module" / f"m{k}.html").exists()]
             if dropped or rr["rc"] != 0:
@@ -691,7 +809,7 @@ def e2e_stream(ford, rng, nproj, rep, seed, cov):
                                        "why": "FORD dropped the whole source file: " + (rr["exc"] or "")
                                               + " ".join(l.strip() for l in rr["log"].splitlines() if "rror" in l or "Bad" in l)[:400],
                                        "source_texts": [{"site": h.site, "text": h.text} for h in hs if h.drops_file()],
-                                       "files": real}, fid)
+                                       "options": opts, "files": real}, fid)
                 continue
             for rel in pages:
                 n_items, n_tags = page_items(ndoc / rel)
@@ -703,25 +821,30 @@ def e2e_stream(ford, rng, nproj, rep, seed, cov):
                     cls = sorted({h.known_class() for h in hs if h.known_class()})
                     evaluations += 1
                     rep.failing_input({"stream": "e2e", "page": str(rel), "why": "page missing (FORD failed: %s)" % (rr["exc"] or rr["log"][-200:]),
-                                       "files": real}, cls[0] if cls else None)
+                                       "options": opts, "files": real}, cls[0] if cls else None)
                     continue
                 # absolute part of the oracle: the twin's rows say what the declarations say
-                have = {squeeze(tx) for _, tx, _ in n_items}
+                # (letter case of code is not part of what a Fortran declaration says; that of literals is)
+                have = {squeeze(tx, fold=True) for _, tx, _ in n_items}
                 for pg, row in gen.expect:
                     if pg == str(rel):
                         evaluations += 1
-                        want = squeeze(gen.render([row], True).strip("\n"))
+                        want = squeeze(gen.render([row], True).strip("\n"), fold=True)
                         if want not in have:
                             near = difflib.get_close_matches(want, list(have), n=1)
-                            fail_hist["twin-row"] = fail_hist.get("twin-row", 0) + 1
+                            hs = [byid[p_] for p_ in PID_RE.findall(gen.render([row], True)) if p_ in byid]
+                            cls = sorted({h.known_class(twin=True) for h in hs} - {None})
+                            fid = cls[0] if cls else None
+                            fail_hist[fid or "twin-row"] = fail_hist.get(fid or "twin-row", 0) + 1
                             rep.failing_input({"stream": "e2e", "page": str(rel), "item": "row of the neutral twin",
                                                "expected_text": want, "observed_text": near[0] if near else None,
                                                "why": "no row/heading of the page says what the declaration says "
                                                       "(type, visibility/intent, optional, parameter, attributes :: name dimension = initial)",
-                                               "files": neutral}, None)
+                                               "source_texts": [{"site": h.site, "text": h.neutral} for h in hs],
+                                               "options": opts, "files": neutral}, fid)
                 r_items, r_tags = page_items(rdoc / rel)
                 # align items
-                exp_items = [(nm, squeeze(expected_text(tx, byid)), tg, PID_RE.findall(tx)) for nm, tx, tg in n_items]
+                exp_items = [(nm, squeeze(expected_text(tx, byid, low)), tg, PID_RE.findall(tx)) for nm, tx, tg in n_items]
                 got_items = [(nm, squeeze(tx), tg) for nm, tx, tg in r_items]
                 failing = []  # (expected item, got item or None)
                 if len(exp_items) == len(got_items):
@@ -750,17 +873,18 @@ def e2e_stream(ford, rng, nproj, rep, seed, cov):
                         "expected_text": e[1], "expected_tags": e[2],
                         "observed_text": g[1] if g else None, "observed_tags": g[2] if g else None,
                         "why": "text content or element skeleton of a declaration row/heading differs from the source text",
-                        "files": real}, fid)
+                        "options": opts, "files": real}, fid)
                 if not failing and r_tags != n_tags:
                     evaluations += 1
                     fail_hist["page-skeleton"] = fail_hist.get("page-skeleton", 0) + 1
                     rep.failing_input({"stream": "e2e", "page": str(rel),
                                        "why": "tag skeleton of the page differs from the neutral twin although all rows agree",
-                                       "files": real}, None)
+                                       "options": opts, "files": real}, None)
                 if len(samples) < 3 and pids_on_page and kindname == "module":
                     samples.append({"page": str(rel), "row_expected": exp_items[min(3, len(exp_items) - 1)][1][:200],
                                     "row_observed": got_items[min(3, len(got_items) - 1)][1][:200] if got_items else None})
-    cov.update(e2e_site_histogram=dict(sorted(site_hist.items())),
+    cov.update(e2e_options=dict(sorted(opt_hist.items())), e2e_letter_case=case_hist,
+               e2e_site_histogram=dict(sorted(site_hist.items())),
                e2e_known_class_inputs=dict(sorted(class_hist.items())),
                e2e_pages=dict(sorted(page_hist.items())),
                e2e_failing_items=dict(sorted(fail_hist.items())))
@@ -798,7 +922,8 @@ def run(tier: str, seed: int, replay: str | None = None) -> int:
         evaluations=ev_micro + ev_decl + ev_e2e,
         distinct_nontrivial=len(distinct),
         rule="e2e: one evaluation per declaration row / heading per page; non-trivial = a hot source text containing one of "
-             "< > & \" ' \\ or repeated blanks, distinct by (site, text)",
+             "< > & \" ' \\ or repeated blanks, distinct by (site, text), or a capital letter in a project built with "
+             "`lower: true`, distinct by (site, text)",
         samples=samples,
         traces_validated_against_impl=ev_micro + ev_decl,
         correspondence_disagreements=bad_micro + bad_decl,
@@ -813,5 +938,7 @@ def run(tier: str, seed: int, replay: str | None = None) -> int:
         "what a reader sees is approximated by an HTML parse (html.parser / BeautifulSoup); browsers are out of scope",
         "re.sub group references (\\1, \\g<0>) and octal escapes in undoubled templates are not modelled (skipped, counted)",
         "fixed-form sources, continuation lines inside literals and preprocessing are outside this property's streams",
+        "letter case: sources are ASCII; code is compared case-insensitively in the absolute part of the oracle (Fortran is "
+        "case-insensitive), character literals exactly; with `lower: true` the expected code is the source's lower-cased",
     ]
     return rep.finish(lean)
